@@ -540,13 +540,13 @@ func readIter(it chunkenc.Iterator, mode int) []obs {
 // deletion intervals (tombstones, or the intervals the query range is trimmed with) goes through the
 // real tsdb.DeletedIterator holding exactly the overlapping intervals, any other chunk is read with
 // its bare iterator.
-func readDeleted(chks []chunkenc.Chunk, ivs [][2]int64, mode int) []obs {
-	var out []obs
+func readDeleted(chks []chunkenc.Chunk, ivs [][2]int64, mode int) (out [][]obs, firstT []int64) {
 	for _, c := range chks {
 		plain := readChunk(c, 0)
 		if len(plain) == 0 {
 			continue
 		}
+		firstT = append(firstT, plain[0].t)
 		lo, hi := plain[0].t, plain[len(plain)-1].t
 		var over tombstones.Intervals
 		for _, iv := range ivs {
@@ -555,12 +555,52 @@ func readDeleted(chks []chunkenc.Chunk, ivs [][2]int64, mode int) []obs {
 			}
 		}
 		if len(over) == 0 {
-			out = append(out, readChunk(c, mode)...)
+			out = append(out, readChunk(c, mode))
 			continue
 		}
-		out = append(out, readIter(&tsdb.DeletedIterator{Iter: c.Iterator(nil), Intervals: over}, mode)...)
+		out = append(out, readIter(&tsdb.DeletedIterator{Iter: c.Iterator(nil), Intervals: over}, mode))
 	}
-	return out
+	return out, firstT
+}
+
+func isMarked(o obs) bool { return !o.stale() && o.hint() == histogram.NotCounterReset }
+
+// chunkShape classifies a chunk case by the two recorded findings, from the inputs and the hints
+// only: the first returned sample is marked and everything before it in its chunk was trimmed by a
+// range interval [MinInt64, x] (first-sample-of-range-restricted-result); or the first surviving
+// sample of a chunk is marked because a tombstone covers the chunk's start
+// (sample-after-deleted-chunk-start).
+func chunkShape(per [][]obs, firstT []int64, ivs [][2]int64, dflt string) string {
+	seen := false
+	shape := dflt
+	for i, l := range per {
+		if len(l) == 0 {
+			continue
+		}
+		if isMarked(l[0]) {
+			switch {
+			case !seen && trimmedByRange(ivs, firstT[i], l[0].t):
+				if shape == dflt {
+					shape = shapeFirst
+				}
+			default:
+				shape = shapeDeleted
+			}
+		}
+		seen = true
+	}
+	return shape
+}
+
+// trimmedByRange: a range-trimming interval [MinInt64, x] covers the chunk's first sample (at lo) and
+// ends before the first returned sample (at hi).
+func trimmedByRange(ivs [][2]int64, lo, hi int64) bool {
+	for _, iv := range ivs {
+		if iv[0] == math.MinInt64 && iv[1] >= lo && iv[1] < hi {
+			return true
+		}
+	}
+	return false
 }
 
 func chunkHeader(c chunkenc.Chunk) int {
@@ -606,15 +646,16 @@ func emitChunkCase(cf *gallina.CaseFile, m *gallina.Meta, id int, float bool, mo
 		e.n(iv[0])
 		e.n(iv[1])
 	}
-	dobs := readDeleted(chks, ivs, mode)
+	per, firstT := readDeleted(chks, ivs, mode)
+	var dobs []obs
+	for _, l := range per {
+		dobs = append(dobs, l...)
+	}
 	e.obsList(dobs)
 	desc.Ivs = ivs
+	desc.Shape = chunkShape(per, firstT, ivs, shape)
 	m.Hit(fmt.Sprintf("chunk/intervals=%d", len(ivs)))
-	for i, o := range dobs {
-		if i == 0 && !o.stale() && o.hint() == histogram.NotCounterReset {
-			m.Hit("chunk/deleted-read-first-marked")
-		}
-	}
+	m.Hit("chunk/shape=" + desc.Shape)
 	m.Hit(fmt.Sprintf("chunk/%s/chunks=%s", desc.Kind, bucket(len(chks))))
 	cf.Add(e.String())
 	m.Case(id, desc)
@@ -890,6 +931,43 @@ const (
 	shapeDeleted = "sample-after-deleted-chunk-start"
 )
 
+// pred is the newest accepted sample older than t (ok=false if there is none).
+func (d *dbRun) pred(t int64) (int64, bool) {
+	best, ok := int64(0), false
+	for s := range d.shadow {
+		if s < t && (!ok || s > best) {
+			best, ok = s, true
+		}
+	}
+	return best, ok
+}
+
+// queryShape classifies a query case by the two recorded findings, from the inputs and the hints
+// only. first-sample-of-range-restricted-result: the first returned sample is marked and the accepted
+// sample right before it lies before the query range. sample-after-deleted-chunk-start: a returned
+// sample is marked and the accepted sample right before it is not returned because a Delete covers it.
+func (d *dbRun) queryShape(direct []obs, mint int64) string {
+	shape := "query"
+	for j, o := range direct {
+		if !isMarked(o) {
+			continue
+		}
+		p, ok := d.pred(o.t)
+		if !ok {
+			continue
+		}
+		switch {
+		case j == 0 && p < mint:
+			if shape == "query" {
+				shape = shapeFirst
+			}
+		case (j == 0 || p > direct[j-1].t) && d.deleted(p):
+			shape = shapeDeleted
+		}
+	}
+	return shape
+}
+
 // query emits one query case.
 func (d *dbRun) query(cf *gallina.CaseFile, m *gallina.Meta, id int, mint, maxt int64) {
 	var rec [][]obs
@@ -914,33 +992,7 @@ func (d *dbRun) query(cf *gallina.CaseFile, m *gallina.Meta, id int, mint, maxt 
 	if !sameObs(merged, direct) {
 		panic(fmt.Sprintf("harness-built merge differs from DB.Querier for [%d,%d]:\n%s\n%s", mint, maxt, obsStr(merged), obsStr(direct)))
 	}
-	shape := "query"
-	// classes that match the recorded findings (decided on inputs and hints only, not on soundness)
-	if len(direct) > 0 && !direct[0].stale() && direct[0].hint() == histogram.NotCounterReset {
-		before := false
-		for t := range d.shadow {
-			if t < mint && !d.deleted(t) {
-				before = true
-			}
-		}
-		if before {
-			shape = shapeFirst
-		} else {
-			shape = shapeDeleted
-		}
-	}
-	if shape == "query" {
-		for j := 1; j < len(direct); j++ {
-			if direct[j].stale() || direct[j].hint() != histogram.NotCounterReset {
-				continue
-			}
-			for t := range d.shadow {
-				if direct[j-1].t < t && t < direct[j].t && d.deleted(t) {
-					shape = shapeDeleted
-				}
-			}
-		}
-	}
+	shape := d.queryShape(direct, mint)
 	var e enc
 	e.n(1)
 	e.n(int64(id))
@@ -1119,6 +1171,13 @@ func corpus(cf *gallina.CaseFile, m *gallina.Meta, base string, id int) int {
 	d.query(cf, m, id, math.MinInt64, math.MaxInt64)
 	id++
 	d.close()
+	// the same two findings on the real tsdb.DeletedIterator alone (chunk cases 8 and 9)
+	grow := []hop{{false, 10, mkH(10)}, {false, 20, mkH(20)}, {false, 30, mkH(30)}, {false, 40, mkH(40)}, {false, 50, mkH(50)}}
+	emitChunkCase(cf, m, id, false, 0, grow, [][2]int64{{math.MinInt64, 29}}, "chunk-corpus")
+	id++
+	reset := []hop{{false, 10, mkH(10)}, {false, 20, mkH(20)}, {false, 30, mkH(5)}, {false, 40, mkH(6)}, {false, 50, mkH(7)}}
+	emitChunkCase(cf, m, id, false, 0, reset, [][2]int64{{25, 35}}, "chunk-corpus")
+	id++
 	return id
 }
 
@@ -1136,8 +1195,8 @@ func main() {
 	defer os.RemoveAll(base)
 
 	id := corpus(cf, m, base, 0)
-	nChunk := f.Count(110, 4000)
-	nDB := f.Count(24, 1000)
+	nChunk := f.Count(80, 2000)
+	nDB := f.Count(18, 400)
 	for i := 0; i < nChunk; i++ {
 		r := gen.Fork(f.Seed, id)
 		fl, mode, ops, ivs := genChunkCase(r, m)
